@@ -75,6 +75,30 @@ CLAIMED["C12"] = (
     "TLC/SANY; writing into a placeholder and overlapping merges are not generated; where rectangles move is Level B (DRIFT); edits cutting "
     "through a rectangle are a recorded known finding (F8b)",
     "DESIGN.md §4 C12")
+CLAIMED["C16"] = (
+    "TLC model checking of Geometry.tla (mechanism: stored size / API-set value / memo / border allowance; SurvivesReload) with its behaviours "
+    "replayed into real tables; recorded setter/query/border/save/reopen histories on new documents and fixtures judged by TLC (Trace_Geometry)",
+    "Geometry.tla models how line sizes are stored, set, memoised, inflated by border allowances and written back; TLC shows the design that keeps "
+    "stored size and allowance apart satisfies SurvivesReload/NoDrift and that the pinned tree's variants (save from memo only, allowance written "
+    "back) violate it. Every bounded behaviour of the mechanism spec is replayed on a real table, random subsets of the 11 setters (with borders, "
+    "queried or not, 1-3 cycles) are run on new documents, and every readable fixture is saved unqueried and with setter subsets; at each save "
+    "the trace records what the open document reports and what the reopened file reports, and TLC checks that the expected observation "
+    "(source values + what was set) survives every cycle component by component.",
+    "TLC/SANY; 'what the document reported before saving' is observed right after the save (saving does not change the open document: C03); "
+    "a caption text setter may switch the caption on (not fixed by C16); structural edits are not mixed in",
+    "DESIGN.md §4 C16")
+CLAIMED["C04"] = (
+    "TLC model checking of CellRecord.tla (published layout vs encoder emission order and decoder offset walk) with every state replayed: all "
+    "(kind, subset of 12 optional fields) through Cell._to_buffer/_from_storage, all flag words through an independent encoder into "
+    "Cell._from_storage; fixture records judged by TLC (Trace_CellRecord)",
+    "CellRecord.tla states the documented layout (fields in ascending flag-bit order, widths 16/8/8/4) and, as Level B, the encoder's emission "
+    "order and the decoder's offset walk; TLC checks DecodeSlots/EncodeLayout/EncodeComplete for every kind x 2^12 subsets and every enumerated "
+    "flag word and refutes the pinned tree's variants (SkipLate, RichTwice). Each TLC state is one implementation test: records are parsed slot "
+    "by slot with the spec's offsets, decoded again and compared attribute by attribute; each flag word is materialised with sentinels by the "
+    "harness's own encoder and decoded by the library; every distinct cell record of the fixtures is re-read by TLC at the layout's offsets.",
+    "TLC/SANY; stub model for string/style/rich-text lookups; payload values sampled from C01's domains; quick tier enumerates flag bits 0..14 "
+    "(2^15 words), thorough all 2^21",
+    "DESIGN.md §4 C04")
 NOT_YET = "check not built yet in this round (planned: see DESIGN.md section for this property)"
 NA = {}
 
